@@ -112,7 +112,15 @@ type RPC struct {
 	DeadlineNs int64  `json:"deadline_ns"` // 0: the world's default (10 simulated minutes)
 	WaitReady  bool   `json:"wait_ready,omitempty"`
 	MD         []KV   `json:"md,omitempty"`
-	Client     []Op   `json:"client"`
+	// Desc: the StreamDesc the application passes to NewStream: "" bidi
+	// (default), "ss" server streaming, "cs" client streaming, "unary" neither
+	// (legal for generic clients and proxies; not grpc's private unary desc).
+	Desc string `json:"desc,omitempty"`
+	// Abandon: when the script ends without a final status the application
+	// cancels the context and walks away instead of reading to an error (the
+	// documented way to release a stream).
+	Abandon bool `json:"abandon,omitempty"`
+	Client  []Op `json:"client"`
 	// Server[k] is the handler script of the k-th invocation for this RPC
 	// (retries re-invoke); the last entry is reused for further invocations.
 	Server [][]Op `json:"server"`
@@ -653,7 +661,16 @@ func (w *run) clientRPC(conn *grpc.ClientConn, st *rpcState) {
 	e.Logf("rpc %d start", r.ID)
 	var cs grpc.ClientStream
 	err := w.api(st, "NewStream", func() (err error) {
-		cs, err = conn.NewStream(ctx, &grpc.StreamDesc{ServerStreams: true, ClientStreams: true}, "/sim.Svc/M", opts...)
+		desc := &grpc.StreamDesc{ServerStreams: true, ClientStreams: true}
+		switch r.Desc {
+		case "ss":
+			desc = &grpc.StreamDesc{ServerStreams: true}
+		case "cs":
+			desc = &grpc.StreamDesc{ClientStreams: true}
+		case "unary":
+			desc = &grpc.StreamDesc{StreamName: "M"}
+		}
+		cs, err = conn.NewStream(ctx, desc, "/sim.Svc/M", opts...)
 		return err
 	})
 	if err != nil {
@@ -745,6 +762,16 @@ func (w *run) clientRPC(conn *grpc.ClientConn, st *rpcState) {
 			st.hdr = h
 			e.Logf("rpc %d op %d header -> %v", r.ID, oi, errStr(err))
 		}
+	}
+	if !st.clientDone && r.Abandon {
+		// the deferred cancel releases the stream; nothing is read any more
+		st.cancelled = true
+		e.Logf("rpc %d abandoned", r.ID)
+		e.Probe("rpc_abandoned_by_cancel")
+		st.clientDone = true
+		st.finishedAt = time.Now()
+		st.clientStatus = status.New(codes.Canceled, "abandoned by the application")
+		return
 	}
 	if !st.clientDone {
 		// scripts end by draining the stream so that every RPC reaches a final status
